@@ -391,6 +391,20 @@ def fungible_family():
     return res
 
 
+def cx_family():
+    """the types/values serialized at compile time in harness/prim.cpp (C17)"""
+    arr = lambda n, t: ('wrap', 7, ('seq', ('arr', True, n), t))
+    st = lambda *ts: ('tup', 'struct', list(ts))
+    s1 = st(S('u8'), S('u32'), S('i64'), S('i16'))
+    s2 = st(s1, arr(3, S('u16')), S('bool'))
+    t1 = named_table('Verif.Cx', [(0, True, S('i32')), (1, True, S('u8', 1)), (2, True, arr(10, S('u8', 1))), (300, True, S('u64'))])
+    a = arr(2, s1)
+    return [(s1, ('s1', '(seq 200 2779096485 -4000000000 -129)')),
+            (s2, ('s2', '(seq (seq 127 65536 2147483648 127) (seq 0 255 65535) 1)')),
+            (t1, ('t1', '(tab (some -65) (some 122) (some (seq 104 101 108 108 111 0 0 0 0 0)) (some 18446744073709551615))')),
+            (a, ('a', '(seq (seq 1 2 3 4) (seq 128 256 -32769 -64))'))]
+
+
 def core_pool():
     """Deterministic pool: every constructor x integer kind x integral/non-integral
     elements x small arities.  Returns a list of types."""
@@ -446,6 +460,7 @@ def core_pool():
     P += [t1, t2, t3, t4, st(t1, S('u16')), vec(t2)]
     P += version_family()
     P += fungible_family()
+    P += [t for t, _ in cx_family()]
     # finding K1: Optional/Result whose payload can itself start with NIL/ERR (not prefix-disjoint)
     P += [('opt', ('opt', S('u8'))), ('res', 1, 'i32', ('res', 2, 'u8', S('u8')))]
     seen, out = set(), []
